@@ -253,6 +253,32 @@ def run(ctx):
     import morecorr4
     morecorr3.run(ctx, impl, common.Model(), rng, ctexts if ctx.thorough else ctexts[:10])
     morecorr4.run(ctx, impl, common.Model(), rng, ctexts if ctx.thorough else ctexts[:10])
+    # TIE-H: the same in real runs -- the tables the freshness checks consult must describe the input a proposal is made for,
+    # also in the middle of a ddmin round after an acceptance (sequential and parallel) and between hierarchical sweeps.  The
+    # command accepts every candidate that keeps one symbol, so declaring steps are accepted and followed by further ones.
+    import e2e
+    hist = [
+        # four str.contains atoms, three of them on one variable; at least one atom must stay, so the subset of all of them is
+        # rejected and smaller subsets follow in the same round: the same derived names are due twice
+        ('(set-logic ALL)\n(declare-const z String)\n(declare-const w String)\n(assert (str.contains z "ab"))\n(assert (str.contains w "k"))\n'
+         '(assert (str.contains z "cd"))\n(assert (str.contains z "ef"))\n(check-sat)\n', ['--strings', '--disable-all', '--str-contains-to-concat'], 'str.contains'),
+        # bit-width reductions of two variables, one operator must stay
+        ('(set-logic ALL)\n(declare-const u (_ BitVec 8))\n(declare-const v (_ BitVec 8))\n(assert (= (bvadd u v) (bvmul v u)))\n'
+         '(assert (bvult u (bvnot v)))\n(assert (bvult v (bvneg u)))\n(check-sat)\n', ['--disable-all', '--bv-reduce-bitwidth', '--introduce-fresh-variables'], 'bvult'),
+        ('(set-logic ALL)\n(declare-const a Int)\n(declare-const b Int)\n(assert (> (+ a b 1) (* a b)))\n(assert (< (- a b) (+ b 2)))\n(assert (< (* a 2) (+ b 3)))\n(check-sat)\n',
+         ['--disable-all', '--introduce-fresh-variables', '--eliminate-variables'], '<'),
+    ]
+    jobs = []
+    for k, (text, xopts, sym) in enumerate(hist):
+        for strat, jn in ((('ddmin', 1), ('ddmin', 3), ('hierarchical', 2), ('hybrid', 1)) if ctx.thorough else (('ddmin', 1), ('hybrid', 2))):
+            jobs.append(dict(text=text, opts=['--strategy', strat, '-j', str(jn)] + xopts, cmd=[e2e.TOKPRED, 'all', sym], env={}, timeout=240))
+    for j, r in zip(jobs, e2e.run_many(jobs)):
+        nchk = len(r.ev('check'))
+        ctx.case(['run', j['text'], j['opts']], nchk > 10)
+        ctx.count('candidates of real runs inspected for repeated declarations', nchk)
+        for msg in e2e.analyse(r)['C15']:
+            ctx.violation('impl-violation', input=j['text'], options=j['opts'], command=j['cmd'], observed=msg,
+                          expected='declarations a candidate introduces declare symbols that the input it was made for does not declare')
     ctx.extra['proposals_per_mutator'] = dict(sorted(per_mut.items()))
     ctx.extra['mutators_never_exercised'] = sorted(set(c for _, c, _ in P.all_mutators()) - set(per_mut))
     ctx.assumptions += ['inputs are well-sorted scripts of the typed generator and their partially reduced forms']
